@@ -258,6 +258,83 @@ static inline int rpes_parse(const uint8_t *p, size_t n, struct rpes *r)
     return 0;
 }
 
+/* ------------------------------------------------------------------ PSI sections in TS payloads
+ * ISO/IEC 13818-1 2.4.4: a packet with payload_unit_start carries a pointer_field as the first
+ * payload octet, giving the number of octets until the first section that starts in the packet
+ * (those octets end the section in progress); sections follow each other back to back; stuffing
+ * octets 0xff may only follow the last octet of a section and then fill the packet; without
+ * payload_unit_start no section starts in the packet. section size = 3 + section_length (12 bits). */
+#define RPSI_MAXSEC 64
+struct rpsi {
+    const char *bad;
+    uint8_t *buf; size_t n, cap;           /* recovered sections, concatenated (caller's storage) */
+    size_t off[RPSI_MAXSEC + 1]; unsigned nsec;   /* complete sections: [off[i], off[i+1]) */
+    bool in_sec; size_t cur_start, cur_need;      /* cur_need: total size once the header is known, else 0 */
+    unsigned npkt;
+    /* what was seen (for the classes) */
+    bool saw_multi, saw_span, saw_pad, saw_exact, saw_pointer_nz;
+};
+static inline void rpsi_init(struct rpsi *r, uint8_t *storage, size_t cap)
+{ memset(r, 0, sizeof *r); r->buf = storage; r->cap = cap; }
+static inline void rpsi_octet(struct rpsi *r, uint8_t v)
+{
+    if (r->bad) return;
+    if (r->n >= r->cap) { r->bad = "more section octets than the reference storage holds"; return; }
+    r->buf[r->n++] = v;
+    size_t have = r->n - r->cur_start;
+    if (have == 3) {
+        struct rbits b; rb_init(&b, r->buf + r->cur_start, 3);
+        rb_get(&b, 8); rb_get(&b, 4);
+        r->cur_need = 3 + (size_t)rb_get(&b, 12);
+    }
+    if (r->cur_need && have == r->cur_need) {
+        if (r->nsec >= RPSI_MAXSEC) { r->bad = "too many sections"; return; }
+        r->nsec++; r->off[r->nsec] = r->n;
+        r->in_sec = false; r->cur_need = 0;
+    }
+}
+/* payload of one packet of the PID (len >= 1) */
+static inline void rpsi_packet(struct rpsi *r, const uint8_t *p, unsigned len, bool pusi)
+{
+    if (r->bad) return;
+    r->npkt++;
+    unsigned pos = 0, started = 0;
+    if (pusi) {
+        unsigned ptr = p[0];
+        pos = 1;
+        if (ptr) r->saw_pointer_nz = true;
+        if (1 + ptr >= len) { r->bad = "pointer_field points beyond the packet although payload_unit_start is set"; return; }
+        if (ptr && !r->in_sec) { r->bad = "pointer_field skips octets although no section is in progress"; return; }
+        for (unsigned i = 0; i < ptr; i++) {
+            if (!r->in_sec) { r->bad = "the section in progress ends before the octet designated by pointer_field"; return; }
+            rpsi_octet(r, p[pos++]);
+            if (r->bad) return;
+        }
+        if (r->in_sec) { r->bad = "a new section starts (pointer_field) while the previous one is incomplete"; return; }
+        if (p[pos] == 0xff) { r->bad = "payload_unit_start set but no section starts at the octet designated by pointer_field"; return; }
+    } else if (!r->in_sec) {
+        r->bad = "payload without payload_unit_start while no section is in progress"; return;
+    } else r->saw_span = true;
+    while (pos < len) {
+        if (!r->in_sec) {
+            if (p[pos] == 0xff || !pusi) {
+                /* stuffing: everything up to the end of the packet is 0xff (a new section needs payload_unit_start) */
+                for (unsigned i = pos; i < len; i++)
+                    if (p[i] != 0xff) { r->bad = pusi ? "octet other than 0xff after stuffing began" : "octets after the end of a section in a packet without payload_unit_start are not 0xff stuffing"; return; }
+                r->saw_pad = true;
+                return;
+            }
+            r->in_sec = true; r->cur_start = r->n; r->cur_need = 0;
+            if (++started > 1) r->saw_multi = true;
+        }
+        rpsi_octet(r, p[pos++]);
+        if (r->bad) return;
+    }
+    if (!r->in_sec) r->saw_exact = true;       /* a section ended exactly with the packet */
+}
+static inline void rpsi_end(struct rpsi *r)
+{ if (!r->bad && r->in_sec) r->bad = "the last section is incomplete"; }
+
 struct wpes {
     unsigned stream_id, length;
     bool prio, align, copyright, original;
